@@ -30,65 +30,87 @@ Section Idem.
   Lemma file_same_copy : forall deep c m m', file_same frepr deep c m c m' = true.
   Proof. intros. unfold file_same. rewrite bytes_eqb_refl. apply orb_true_r. Qed.
 
-  (* every loop body is the identity on d: the walk returns d *)
+  (* every loop body is the identity on d and no kind clash stops the walk: the walk returns d *)
   Lemma sync_ws_fix : forall fuel o deep sdir d subdir,
     (forall n, In n (names cf sdir) -> classify deep n sdir d = LeftOnly -> step1 cf o sdir n d = (d, None)) ->
     (forall n, In n (names cf sdir) -> classify deep n sdir d = Diff -> step2 cf o sdir subdir n d = (d, None)) ->
+    (fix_funny cf = true -> forall n, In n (names cf sdir) -> classify deep n sdir d = Funny -> excluded o n = true) ->
     (forall n, In n (names cf sdir) -> classify deep n sdir d = SubDir ->
-               step3 (sync_ws fuel o deep) o sdir subdir n d = (d, None)) ->
+               step3 (sync_ws fuel (set_top o false) deep) o sdir subdir n d = (d, None)) ->
     sync_ws (S fuel) o deep sdir d subdir = (d, None).
   Proof.
-    intros fuel o deep sdir d subdir H1 H2 H3. rewrite sync_ws_S.
+    intros fuel o deep sdir d subdir H1 H2 H4 H3. rewrite sync_ws_S.
     rewrite run_steps_fix by (intros n Hin; apply of_cls_In in Hin; destruct Hin; apply H1; assumption).
     rewrite run_steps_fix by (intros n Hin; apply of_cls_In in Hin; destruct Hin; apply H2; assumption).
+    assert (Hf : funny_err frepr cf o deep sdir d = false).
+    { unfold funny_err. destruct (fix_funny cf) eqn:Eff; [|reflexivity]. simpl. specialize (H4 eq_refl).
+      destruct (existsb (fun n => negb (excluded o n)) (of_cls frepr cf deep sdir d Funny)) eqn:E; [|reflexivity].
+      apply existsb_exists in E. destruct E as (n & Hin & Hn). apply of_cls_In in Hin. destruct Hin as [Hin Hc].
+      rewrite (H4 n Hin Hc) in Hn. discriminate. }
+    rewrite Hf.
     apply run_steps_fix. intros n Hin. apply of_cls_In in Hin. destruct Hin. apply H3; assumption.
   Qed.
 
-  (* the directory copytree produced *)
-  Definition copied (o : opts) (es : dir) : dir :=
-    touch_list (if fix_excl cf then prune_list (excluded o) es else es).
+  (* below the top level (and before 2602a0e everywhere) the walk skips what copytree's ignore function skips *)
+  Lemma excluded_nontop : forall o n, o_top o = false -> excluded o n = tree_excl cf o n.
+  Proof.
+    intros o n H. unfold Sync.excluded, tree_excl. destruct (fix_own cf); [|reflexivity].
+    rewrite H. simpl. apply orb_false_r.
+  Qed.
 
-  Lemma copied_node : forall o es,
-    touch (if fix_excl cf then prune (excluded o) (Dir es) else Dir es) = Dir (copied o es).
+  (* the directory copytree produced, [ex] being its ignore predicate *)
+  Definition copied (ex : str -> bool) (es : dir) : dir :=
+    touch_list (if fix_excl cf then prune_list ex es else es).
+
+  Lemma copied_node : forall ex es,
+    touch (if fix_excl cf then prune ex (Dir es) else Dir es) = Dir (copied ex es).
   Proof. intros. unfold copied. destruct (fix_excl cf); reflexivity. Qed.
 
-  Lemma alookup_copied : forall o es n,
-    alookup n (copied o es) =
-    if fix_excl cf && excluded o n then None
+  Lemma alookup_copied : forall ex es n,
+    alookup n (copied ex es) =
+    if fix_excl cf && ex n then None
     else match alookup n es with
-         | Some x => Some (touch (if fix_excl cf then prune (excluded o) x else x))
+         | Some x => Some (touch (if fix_excl cf then prune ex x else x))
          | None => None
          end.
   Proof.
     intros. unfold copied. rewrite alookup_touch_list. destruct (fix_excl cf); simpl.
-    - rewrite alookup_prune_list. destruct (excluded o n); [reflexivity|]. destruct (alookup n es); reflexivity.
+    - rewrite alookup_prune_list. destruct (ex n); [reflexivity|]. destruct (alookup n es); reflexivity.
     - destruct (alookup n es); reflexivity.
   Qed.
 
-  (* walking a source directory against its own fresh copy does nothing *)
+  (* walking a source directory (below the top level) against its own fresh copy does nothing *)
   Lemma ws_copied_stable : forall fuel o deep es subdir,
+    o_top o = false ->
     wf_node (Dir es) = true -> (depth (Dir es) < fuel)%nat ->
-    sync_ws fuel o deep es (copied o es) subdir = (copied o es, None).
+    sync_ws fuel o deep es (copied (tree_excl cf o) es) subdir = (copied (tree_excl cf o) es, None).
   Proof.
-    induction fuel as [|fuel IH]; intros o deep es subdir Hwf Hd; [lia|].
+    induction fuel as [|fuel IH]; intros o deep es subdir Htop Hwf Hd; [lia|].
     destruct (wf_dir_inv _ Hwf) as [Hnd Hsub].
     apply sync_ws_fix.
     - intros n Hin Hc. apply classify_LeftOnly in Hc. rewrite alookup_copied in Hc.
       apply names_In in Hin. destruct Hin as [Hin _].
       unfold step1. destruct (excluded o n) eqn:Ex; [reflexivity|].
-      rewrite andb_false_r in Hc.
+      rewrite (excluded_nontop o n Htop) in Ex. rewrite Ex, andb_false_r in Hc.
       destruct (alookup n es) eqn:E; [discriminate|].
       apply alookup_None_notin in E. contradiction.
     - intros n Hin Hc. apply classify_Diff in Hc. destruct Hc as (c1 & m1 & c2 & m2 & E1 & E2 & Hd2).
-      rewrite alookup_copied, E1 in E2. destruct (fix_excl cf && excluded o n); [discriminate|].
+      rewrite alookup_copied, E1 in E2. destruct (fix_excl cf && tree_excl cf o n); [discriminate|].
       destruct (fix_excl cf); simpl in E2; inversion E2; subst; rewrite file_same_copy in Hd2; discriminate.
+    - intros _ n Hin Hc. exfalso. unfold Sync.classify in Hc. rewrite alookup_copied in Hc.
+      destruct (fix_excl cf && tree_excl cf o n); [destruct (alookup n es) as [[? ?|?]|]; discriminate|].
+      destruct (alookup n es) as [[c m|ses]|]; try discriminate.
+      + destruct (fix_excl cf); simpl in Hc; destruct (file_same frepr deep c m c NOW); discriminate.
+      + rewrite copied_node in Hc. discriminate.
     - intros n Hin Hc. apply classify_SubDir in Hc. destruct Hc as (ses & des & E1 & E2).
       rewrite (step3_SubDir _ _ _ _ _ _ ses des E1 E2).
       destruct (o_recursive o); [|reflexivity].
-      rewrite alookup_copied, E1 in E2. destruct (fix_excl cf && excluded o n) eqn:Ee; [discriminate|].
+      rewrite alookup_copied, E1 in E2. destruct (fix_excl cf && tree_excl cf o n) eqn:Ee; [discriminate|].
       rewrite copied_node in E2. inversion E2; subst des.
-      rewrite IH; [|eapply Hsub; eauto|pose proof (depth_entry _ _ _ E1); lia].
+      change (tree_excl cf o) with (tree_excl cf (set_top o false)).
+      rewrite IH; [|reflexivity|eapply Hsub; eauto|pose proof (depth_entry _ _ _ E1); lia].
       cbn [fst snd]. f_equal. apply aset_same.
+      change (tree_excl cf (set_top o false)) with (tree_excl cf o).
       rewrite alookup_copied, E1, Ee, copied_node. reflexivity.
   Qed.
 
@@ -148,6 +170,35 @@ Section Idem.
         * cbn [fst] in A1. rewrite E2' in A1. inversion A1; subst. rewrite Ev. reflexivity.
       + apply classify_SubDir in Ec1. destruct Ec1 as (ses & des & E1' & _). congruence.
       + cbn [fst] in A1. unfold Sync.classify in Ec1. rewrite E1, <- A1 in Ec1. rewrite Hdf in Ec1. discriminate.
+    - (* kind clashes: the first run left kinds as they were, and it succeeded *)
+      intros Hff n Hin Hc. destruct (At n Hin) as [A1 A2]. unfold class_step in A1, A2.
+      assert (Congr : alookup n d' = alookup n ddir -> classify deep n sdir d' = classify deep n sdir ddir)
+        by (intro E; unfold Sync.classify; rewrite E; reflexivity).
+      destruct (classify deep n sdir ddir) eqn:Ec1.
+      + unfold step1 in A1. destruct (excluded o n) eqn:Ex; [reflexivity|]. exfalso.
+        apply classify_LeftOnly in Ec1. unfold Sync.classify in Hc.
+        destruct (alookup n sdir) as [[c m|es]|] eqn:E1.
+        * unfold copy_file in A1. rewrite Hdry in A1. cbn [fst] in A1. rewrite alookup_aset_same in A1.
+          rewrite A1 in Hc. destruct (file_same frepr deep c m c NOW); discriminate.
+        * destruct (o_recursive o).
+          -- unfold copy_tree in A1. rewrite Hdry in A1. cbn [fst] in A1.
+             rewrite alookup_app, Ec1 in A1. cbn [alookup] in A1. rewrite str_eqb_refl in A1.
+             rewrite copied_node in A1. rewrite A1 in Hc. discriminate.
+          -- cbn [fst] in A1. rewrite A1, Ec1 in Hc. discriminate.
+        * cbn [fst] in A1. rewrite A1, Ec1 in Hc. discriminate.
+      + cbn [fst] in A1. rewrite (Congr A1) in Hc. discriminate.
+      + exfalso. apply classify_Diff in Ec1. destruct Ec1 as (c1 & m1 & c2 & m2 & E1 & E2 & _).
+        unfold step2 in A1. rewrite E1, E2 in A1. unfold Sync.classify in Hc. rewrite E1 in Hc.
+        destruct (excluded o n); [cbn [fst] in A1; rewrite A1, E2 in Hc; destruct (file_same frepr deep c1 m1 c2 m2); discriminate|].
+        destruct (o_strategy o) as [s|]; [|cbn [fst] in A1; rewrite A1, E2 in Hc; destruct (file_same frepr deep c1 m1 c2 m2); discriminate].
+        destruct (verdict s (join subdir n) m1 m2);
+          [|cbn [fst] in A1; rewrite A1, E2 in Hc; destruct (file_same frepr deep c1 m1 c2 m2); discriminate].
+        unfold copy_file in A1. rewrite Hdry in A1. cbn [fst] in A1. rewrite alookup_aset_same in A1.
+        rewrite A1 in Hc. destruct (file_same frepr deep c1 m1 c1 NOW); discriminate.
+      + exfalso. apply classify_SubDir in Ec1. destruct Ec1 as (ses & des & E1 & E2).
+        rewrite (step3_SubDir _ _ _ _ _ _ ses des E1 E2) in A1. unfold Sync.classify in Hc. rewrite E1 in Hc.
+        destruct (o_recursive o); cbn [fst] in A1; [rewrite alookup_aset_same in A1|rewrite E2 in A1]; rewrite A1 in Hc; discriminate.
+      + eapply (ok_funny_excluded frepr cf); eauto.
     - (* directories on both sides *)
       intros n Hin Hc. apply classify_SubDir in Hc. destruct Hc as (ses & des' & E1 & E2).
       rewrite (step3_SubDir _ _ _ _ _ _ ses des' E1 E2).
@@ -155,10 +206,10 @@ Section Idem.
       destruct (At n Hin) as [A1 A2]. unfold class_step in A1, A2. rewrite E2 in A1.
       assert (Hwfs : wf_node (Dir ses) = true) by (eapply Hsub; eauto).
       assert (Hds : (depth (Dir ses) < fuel)%nat) by (pose proof (depth_entry _ _ _ E1); lia).
-      assert (Fin : sync_ws fuel o deep ses des' (join subdir n) = (des', None) ->
-                    (let '(d0, e0) := sync_ws fuel o deep ses des' (join subdir n) in (aset n (Dir d0) d', e0)) = (d', None)).
+      assert (Fin : sync_ws fuel (set_top o false) deep ses des' (join subdir n) = (des', None) ->
+                    (let '(d0, e0) := sync_ws fuel (set_top o false) deep ses des' (join subdir n) in (aset n (Dir d0) d', e0)) = (d', None)).
       { intro R. rewrite R. f_equal. apply aset_same. assumption. }
-      assert (Goal' : sync_ws fuel o deep ses des' (join subdir n) = (des', None)).
+      assert (Goal' : sync_ws fuel (set_top o false) deep ses des' (join subdir n) = (des', None)).
       { destruct (classify deep n sdir ddir) eqn:Ec1.
         - (* copied by the first run *)
           unfold step1 in A1. destruct (excluded o n) eqn:Ex.
@@ -166,15 +217,16 @@ Section Idem.
           + rewrite E1, Er in A1. unfold copy_tree in A1. rewrite Hdry in A1. cbn [fst] in A1.
             apply classify_LeftOnly in Ec1. rewrite alookup_app, Ec1 in A1. cbn [alookup] in A1.
             rewrite str_eqb_refl in A1. rewrite copied_node in A1. inversion A1; subst des'.
-            apply ws_copied_stable; assumption.
+            change (tree_excl cf o) with (tree_excl cf (set_top o false)).
+            apply ws_copied_stable; [reflexivity|assumption|assumption].
         - cbn [fst] in A1. unfold Sync.classify in Ec1. rewrite E1, <- A1 in Ec1. discriminate.
         - apply classify_Diff in Ec1. destruct Ec1 as (c1 & m1 & c2 & m2 & E1' & _). congruence.
         - apply classify_SubDir in Ec1. destruct Ec1 as (ses0 & des & E1' & E2').
           rewrite E1 in E1'. inversion E1'; subst ses0.
           rewrite (step3_SubDir _ _ _ _ _ _ ses des E1 E2') in A1, A2. rewrite Er in A1, A2.
           cbn [fst snd] in A1, A2. rewrite alookup_aset_same in A1. inversion A1; subst des'.
-          apply (IH o deep ses des (join subdir n)); try assumption.
-          destruct (sync_ws fuel o deep ses des (join subdir n)) as [x e]. cbn [fst snd] in *. subst e. reflexivity.
+          apply (IH (set_top o false) deep ses des (join subdir n)); try assumption.
+          destruct (sync_ws fuel (set_top o false) deep ses des (join subdir n)) as [x e]. cbn [fst snd] in *. subst e. reflexivity.
         - cbn [fst] in A1. unfold Sync.classify in Ec1. rewrite E1, <- A1 in Ec1. discriminate. }
       rewrite Goal'. cbn [fst snd]. f_equal. apply aset_same. assumption.
   Qed.
@@ -197,7 +249,7 @@ Section OnlyIf.
     after = Some (File c2 m2)
     \/ exists c1 m1 s,
          lookup_path p (Dir sdir) = Some (File c1 m1) /\ o_strategy o = Some s
-         /\ verdict s (rel subdir p) m1 m2 = true /\ excluded o (last p []) = false
+         /\ verdict s (rel subdir p) m1 m2 = true /\ excluded (at_path o p) (last p []) = false
          /\ file_same frepr deep c1 m1 c2 m2 = false /\ o_dry_run o = false
          /\ after = Some (File c1 NOW).
   Proof.
@@ -223,7 +275,10 @@ Section OnlyIf.
       destruct (o_recursive o); cbn [fst]; [|left; rewrite E2; assumption].
       rewrite alookup_aset_same.
       destruct p as [|k p]; [simpl in Hd; discriminate|].
-      apply (IH fuel o deep ses des (join subdir n) c2 m2); [eapply Hsub; eauto|assumption].
+      assert (Hw : wf_node (Dir ses) = true) by (eapply Hsub; eauto).
+      destruct (IH fuel (set_top o false) deep ses des (join subdir n) c2 m2 Hw Hd) as [Hl|(c1 & m1 & s & R1 & R2 & R3 & R4 & R5)];
+        [left; exact Hl|right].
+      exists c1, m1, s. rewrite at_path_cons in R4. cbn [at_path]. auto 10.
   Qed.
 End OnlyIf.
 
